@@ -112,6 +112,20 @@ def nontrivial_hashes(kind, pairs):
     return out
 
 
+def enum_jobs(pid, tier):
+    """(kind, depth, max_cases per shard, shards) of the bounded exhaustive stage"""
+    kinds = ['pool'] if pid == 'C14' else (['lru'] if pid in ('C09', 'C10') else ['hashmap', 'lru', 'pool'])
+    out = []
+    for k in kinds:
+        if tier == 'quick':
+            out.append((k, 4, 10 ** 9, 1 if k == 'pool' else 5))
+        else:
+            # depth 4 exhaustively and a bounded part of depth 5 (its subtrees in seed-dependent order)
+            out.append((k, 4, 10 ** 9, 1 if k == 'pool' else 5))
+            out.append((k, 5, 10 ** 9 if k == 'pool' else 60000, 1 if k == 'pool' else 8))
+    return out
+
+
 STRESS_PROPS = ('C01', 'C02', 'C03', 'C04', 'C05', 'C07', 'C10', 'C11', 'C12', 'C13', 'C14')
 
 
